@@ -34,15 +34,43 @@ const (
 	vfE4Now0     = int64(1000000) * int64(time.Second)
 )
 
+// Harness-side I/O budget. A harness timeout is NOT a verdict about nsqlookupd: the run ends with
+// the marker E4-INCONCLUSIVE (exit code 7); the python side re-runs the leg once in a fresh process
+// and reports only a failure that persists.
+const vfE4IOTimeout = 20 * time.Second
+
+// vfE4GiveUp may be called from any goroutine: it ends the process with the marker.
+func vfE4GiveUp(format string, a ...interface{}) {
+	fmt.Printf("E4-INCONCLUSIVE %s\n", fmt.Sprintf(format, a...))
+	os.Stdout.Sync()
+	os.Exit(7)
+}
+
 type vfE4NullLogger struct{}
 
 func (vfE4NullLogger) Output(int, string) error { return nil }
 
 type vfE4Conn struct {
-	id int
-	c  net.Conn
-	rd *bufio.Reader
+	id   int
+	c    net.Conn
+	rd   *bufio.Reader
+	addr string // the address nsqlookupd sees this connection coming from (its DB id)
+	pipe bool
 }
+
+// vfE4PipeEnd: the server side of a net.Pipe, with an address of its own. Handed to the real
+// tcpServer.Handle. A pipe has no buffering: when the client closes without reading, the
+// server's pending write of the answer fails — deterministically (a TCP reset would race).
+type vfE4PipeEnd struct {
+	net.Conn
+	remote vfE4Addr
+}
+type vfE4Addr string
+
+func (a vfE4Addr) Network() string { return "tcp" }
+func (a vfE4Addr) String() string  { return string(a) }
+
+func (p vfE4PipeEnd) RemoteAddr() net.Addr { return p.remote }
 
 type vfE4Env struct {
 	l        *NSQLookupd
@@ -76,7 +104,7 @@ func vfE4Start(realHTTP bool, topics []string) *vfE4Env {
 		}
 	}()
 	return &vfE4Env{l: l, h: newHTTPServer(l), realHTTP: realHTTP,
-		client:  &http.Client{Timeout: 10 * time.Second},
+		client:  &http.Client{Timeout: vfE4IOTimeout},
 		conns:   map[int]*vfE4Conn{},
 		addr2id: map[string]int{}, vnow: vfE4Now0, topics: topics, hist: map[string]int{}}
 }
@@ -99,22 +127,44 @@ func (e *vfE4Env) Stop() {
 // ---------------------------------------------------------------- connections
 
 func (e *vfE4Env) open(id int, magic bool) *vfE4Conn {
-	c, err := net.DialTimeout("tcp", e.l.RealTCPAddr().String(), 5*time.Second)
+	c, err := net.DialTimeout("tcp", e.l.RealTCPAddr().String(), vfE4IOTimeout)
 	if err != nil {
-		panic(err)
+		vfE4GiveUp("connect: %v", err)
 	}
 	if magic {
 		c.Write([]byte("  V1"))
 	}
-	vc := &vfE4Conn{id: id, c: c, rd: bufio.NewReader(c)}
+	vc := &vfE4Conn{id: id, c: c, rd: bufio.NewReader(c), addr: c.LocalAddr().String()}
 	e.conns[id] = vc
-	e.addr2id[c.LocalAddr().String()] = id
+	e.addr2id[vc.addr] = id
 	return vc
 }
+
+// openPipe: a connection over net.Pipe served by the real tcpServer.Handle.
+func (e *vfE4Env) openPipe(id int) *vfE4Conn {
+	ours, theirs := net.Pipe()
+	addr := fmt.Sprintf("192.0.2.7:%d", 20000+id)
+	go e.l.tcpServer.Handle(vfE4PipeEnd{Conn: theirs, remote: vfE4Addr(addr)})
+	vc := &vfE4Conn{id: id, c: ours, rd: bufio.NewReader(ours), addr: addr, pipe: true}
+	e.conns[id] = vc
+	e.addr2id[addr] = id
+	ours.SetDeadline(time.Now().Add(vfE4IOTimeout))
+	if _, err := ours.Write([]byte("  V1")); err != nil {
+		vfE4GiveUp("pipe magic: %v", err)
+	}
+	return vc
+}
+
+// connection ids that are multiples of 2 are pipe connections, the others real TCP connections
+// (a rule on the id, so that an .ops file alone determines it)
+func vfE4IsPipeID(id int) bool { return id%2 == 0 }
 
 func (e *vfE4Env) conn(id int) *vfE4Conn {
 	if vc, ok := e.conns[id]; ok {
 		return vc
+	}
+	if vfE4IsPipeID(id) {
+		return e.openPipe(id)
 	}
 	return e.open(id, true)
 }
@@ -139,19 +189,23 @@ func (e *vfE4Env) closeConn(id int) {
 	if !ok {
 		return
 	}
-	addr := vc.c.LocalAddr().String()
+	addr := vc.addr
 	vc.c.Close()
 	delete(e.conns, id)
 	e.waitGone(addr)
 }
 
 func (e *vfE4Env) waitGone(addr string) {
-	deadline := time.Now().Add(10 * time.Second)
-	for e.serverHas(addr) {
+	deadline := time.Now().Add(vfE4IOTimeout)
+	for n := 0; e.serverHas(addr); n++ {
 		if time.Now().After(deadline) {
-			panic("server did not finish connection " + addr)
+			vfE4GiveUp("server did not finish connection %s within %v", addr, vfE4IOTimeout)
 		}
-		time.Sleep(20 * time.Microsecond)
+		if n < 200 {
+			time.Sleep(20 * time.Microsecond)
+		} else {
+			time.Sleep(time.Millisecond)
+		}
 	}
 }
 
@@ -197,24 +251,78 @@ func vfE4TcpOut(b []byte) string {
 // command: write, read one reply; on an error reply the server closes: wait for that.
 func (e *vfE4Env) command(id int, wire []byte) string {
 	vc := e.conn(id)
-	vc.c.SetDeadline(time.Now().Add(10 * time.Second))
+	vc.c.SetDeadline(time.Now().Add(vfE4IOTimeout))
 	if _, err := vc.c.Write(wire); err != nil {
-		panic(err)
+		vfE4GiveUp("write %q: %v", wire, err)
 	}
 	b, err := vfE4ReadFrame(vc.rd)
 	if err != nil {
-		panic(fmt.Sprintf("no reply to %q: %v", wire, err))
+		vfE4GiveUp("no reply to %q within %v: %v", wire, vfE4IOTimeout, err)
 	}
 	out := vfE4TcpOut(b)
 	if strings.HasPrefix(out, "E_") {
 		// every error of this protocol is fatal: the server closes the connection
-		vc.c.SetReadDeadline(time.Now().Add(10 * time.Second))
+		vc.c.SetReadDeadline(time.Now().Add(vfE4IOTimeout))
 		if _, err := vc.rd.ReadByte(); err == nil {
-			panic("connection still open after " + out)
+			return out + " !connection-left-open"
 		}
 		e.closeConn(id)
 	}
 	return out
+}
+
+// wire: the bytes of one nsqd-side command of the line protocol
+func (e *vfE4Env) wire(id int, kind string, a []string) ([]byte, bool) {
+	switch kind {
+	case "identify":
+		if len(a) != 5 {
+			return nil, false
+		}
+		tcp, _ := strconv.Atoi(a[3])
+		hp, _ := strconv.Atoi(a[4])
+		// every IDENTIFY of the history legs also carries members that are not IDENTIFY fields, naming
+		// another connection's address: they must be ignored (remote_address is overwritten, id is unexported)
+		other := e.otherAddr(id)
+		extra := map[string]interface{}{"remote_address": other, "id": other, "lastUpdate": 1}
+		if e.plainID {
+			extra = nil
+		}
+		body := vfE4IdentifyBodyX(vfE4Unhex(a[0]), vfE4Unhex(a[1]), vfE4Unhex(a[2]), tcp, hp, extra)
+		var buf bytes.Buffer
+		buf.WriteString("IDENTIFY\n")
+		binary.Write(&buf, binary.BigEndian, int32(len(body)))
+		buf.Write(body)
+		return buf.Bytes(), true
+	case "register", "unregister":
+		parts := []string{strings.ToUpper(kind)}
+		for _, p := range a {
+			parts = append(parts, string(vfE4Unhex(p)))
+		}
+		return []byte(strings.Join(parts, " ") + "\n"), true
+	case "ping":
+		return []byte("PING\n"), true
+	}
+	return nil, false
+}
+
+// abort: send one command on a pipe connection and go away WITHOUT reading its answer. The write
+// returns when the server has taken the bytes; the server then executes the command and its write
+// of the answer fails (closed pipe). Afterwards the connection must be gone like after any
+// other disconnect.
+func (e *vfE4Env) abort(id int, wire []byte) string {
+	vc := e.conn(id)
+	if !vc.pipe {
+		return "abort-needs-pipe"
+	}
+	vc.c.SetDeadline(time.Now().Add(vfE4IOTimeout))
+	if _, err := vc.c.Write(wire); err != nil {
+		vfE4GiveUp("abort write %q: %v", wire, err)
+	}
+	addr := vc.addr
+	vc.c.Close()
+	delete(e.conns, id)
+	e.waitGone(addr)
+	return "aborted"
 }
 
 // ---------------------------------------------------------------- virtual time
@@ -260,7 +368,7 @@ func (e *vfE4Env) httpDo(method, path, rawQuery string) (int, []byte) {
 	}
 	resp, err := e.client.Do(req)
 	if err != nil {
-		panic(err)
+		vfE4GiveUp("%s %s: %v", method, target, err)
 	}
 	defer resp.Body.Close()
 	b, _ := io.ReadAll(resp.Body)
@@ -459,7 +567,7 @@ func (e *vfE4Env) otherAddr(self int) string {
 	if best < 0 {
 		return "203.0.113.9:1"
 	}
-	return e.conns[best].c.LocalAddr().String()
+	return e.conns[best].addr
 }
 
 func (e *vfE4Env) count(k string) { e.hist[k]++ }
@@ -509,33 +617,23 @@ func (e *vfE4Env) execOnly(w []string) (string, bool) {
 	switch w[1] {
 	case "q":
 		out = "q"
-	case "identify":
+	case "identify", "register", "unregister", "ping":
 		id, _ := strconv.Atoi(w[2])
-		tcp, _ := strconv.Atoi(w[6])
-		hp, _ := strconv.Atoi(w[7])
-		// every IDENTIFY of the history legs also carries members that are not IDENTIFY fields, naming
-		// another connection's address: they must be ignored (remote_address is overwritten, id is unexported)
-		other := e.otherAddr(id)
-		extra := map[string]interface{}{"remote_address": other, "id": other, "lastUpdate": 1}
-		if e.plainID {
-			extra = nil
+		wire, ok := e.wire(id, w[1], w[3:])
+		if !ok {
+			return "", false
 		}
-		body := vfE4IdentifyBodyX(vfE4Unhex(w[3]), vfE4Unhex(w[4]), vfE4Unhex(w[5]), tcp, hp, extra)
-		var buf bytes.Buffer
-		buf.WriteString("IDENTIFY\n")
-		binary.Write(&buf, binary.BigEndian, int32(len(body)))
-		buf.Write(body)
-		out = e.command(id, buf.Bytes())
-	case "register", "unregister":
-		id, _ := strconv.Atoi(w[2])
-		parts := []string{strings.ToUpper(w[1])}
-		for _, p := range w[3:] {
-			parts = append(parts, string(vfE4Unhex(p)))
+		out = e.command(id, wire)
+	case "abort":
+		if len(w) < 4 {
+			return "", false
 		}
-		out = e.command(id, []byte(strings.Join(parts, " ")+"\n"))
-	case "ping":
 		id, _ := strconv.Atoi(w[2])
-		out = e.command(id, []byte("PING\n"))
+		wire, ok := e.wire(id, w[3], w[4:])
+		if !ok {
+			return "", false
+		}
+		out = e.abort(id, wire)
 	case "disconnect":
 		id, _ := strconv.Atoi(w[2])
 		e.closeConn(id)
@@ -561,7 +659,7 @@ func (e *vfE4Env) execOnly(w []string) (string, bool) {
 		victim, _ := strconv.Atoi(w[3])
 		addr := "203.0.113.9:1"
 		if c, ok := e.conns[victim]; ok {
-			addr = c.c.LocalAddr().String()
+			addr = c.addr
 		}
 		extra := map[string]interface{}{}
 		if w[4] != "-" {
@@ -586,7 +684,12 @@ func (e *vfE4Env) execOnly(w []string) (string, bool) {
 		binary.Write(&buf, binary.BigEndian, int32(len(body)))
 		buf.Write(body)
 		buf.Write(vfE4Unhex(w[10]))
-		out = e.stream(id, buf.Bytes())
+		if len(w) > 11 && strings.HasPrefix(w[11], "k=") {
+			k, _ := strconv.Atoi(w[11][2:])
+			out = e.streamK(id, buf.Bytes()[4:], k)
+		} else {
+			out = e.stream(id, buf.Bytes())
+		}
 	default:
 		return "", false
 	}
@@ -597,8 +700,8 @@ func (e *vfE4Env) execOnly(w []string) (string, bool) {
 // until the server closes.
 func (e *vfE4Env) stream(id int, data []byte) string {
 	vc := e.open(id, false)
-	addr := vc.c.LocalAddr().String()
-	vc.c.SetDeadline(time.Now().Add(20 * time.Second))
+	addr := vc.addr
+	vc.c.SetDeadline(time.Now().Add(vfE4IOTimeout))
 	go func() {
 		vc.c.Write(data)
 		vc.c.(*net.TCPConn).CloseWrite()
@@ -607,6 +710,9 @@ func (e *vfE4Env) stream(id int, data []byte) string {
 	for {
 		b, err := vfE4ReadFrame(vc.rd)
 		if err != nil {
+			if ne, ok := err.(net.Error); ok && ne.Timeout() {
+				vfE4GiveUp("stream: the server neither answered nor closed within %v", vfE4IOTimeout)
+			}
 			break
 		}
 		if vfE4IsIdentifyResp(b) {
@@ -615,6 +721,38 @@ func (e *vfE4Env) stream(id int, data []byte) string {
 		replies = append(replies, vfHex(b))
 	}
 	vc.c.Close()
+	delete(e.conns, id)
+	e.waitGone(addr)
+	return "fin=closed replies=" + strings.Join(replies, ",")
+}
+
+// streamK: a pipe connection (magic already sent) writes the bytes, reads only the first k answers
+// and then goes away — the answer the server is writing (or about to write) is never read.
+func (e *vfE4Env) streamK(id int, data []byte, k int) string {
+	vc := e.openPipe(id)
+	addr := vc.addr
+	vc.c.SetDeadline(time.Now().Add(vfE4IOTimeout))
+	done := make(chan struct{})
+	go func() {
+		vc.c.Write(data) // fails when we close below: the server stopped taking input
+		close(done)
+	}()
+	var replies []string
+	for len(replies) < k {
+		b, err := vfE4ReadFrame(vc.rd)
+		if err != nil {
+			if ne, ok := err.(net.Error); ok && ne.Timeout() {
+				vfE4GiveUp("streamK: answer %d did not arrive within %v", len(replies), vfE4IOTimeout)
+			}
+			break
+		}
+		if vfE4IsIdentifyResp(b) {
+			b = []byte("IDENTIFY-RESPONSE")
+		}
+		replies = append(replies, vfHex(b))
+	}
+	vc.c.Close()
+	<-done
 	delete(e.conns, id)
 	e.waitGone(addr)
 	return "fin=closed replies=" + strings.Join(replies, ",")
